@@ -435,6 +435,9 @@ class ASTRewriter(ast.NodeTransformer):
             ]
             rolls.extend(flatten([self.visit(copy.deepcopy(b)) for b in new_body]))
 
+        # The loop is fully unrolled (there is no break): its else branch always runs
+        rolls.extend(flatten([self.visit(b) for b in node.orelse]))
+
         return rolls
 
     def __call_range(self, node):
